@@ -286,3 +286,11 @@ Theorem C17_order_ties :
   stacker_transform_order = declared_stacker_transform_order.
 Proof. exact tie_orders_summary. Qed.
 Print Assumptions C17_order_ties.
+
+(* the Scaler's guard against data lacking a fitted feature dimension looks at the Dataset as a whole AND at every fitted variable (flags regenerated from
+   the source by T4, which matches the guard statement by statement): a variable without one of its dimensions is refused although another variable still has it *)
+From XV Require Gen.T4.
+Theorem C17_scaler_guard_is_per_variable :
+  T4.scaler_transform_refuses_missing_dims = true /\ T4.scaler_transform_refuses_missing_dims_per_variable = true.
+Proof. exact (conj eq_refl eq_refl). Qed.
+Print Assumptions C17_scaler_guard_is_per_variable.
